@@ -956,9 +956,9 @@ Proof.
   cbn [est_runA]. apply IH. rewrite E. reflexivity.
 Qed.
 
-Theorem forgets_observationally : forall (A : arith) h1 h2 t1 t2 x sfx,
-  let e1 := est_runA A h1 (est_new A t1) in
-  let e2 := est_runA A h2 (est_new A t2) in
+(** stated for ARBITRARY estimator states e1 e2 (reachable or not); [sfx] is a list of calls that
+    REACHED THE ESTIMATOR ([Estimator::record] / [BarState::reset]), not of public calls *)
+Theorem estimator_forgets_after_restart : forall (A : arith) (e1 e2 : est (T A)) x sfx,
   is_restart x e1 -> is_restart x e2 ->
   est_runA A (x :: sfx) e1 = est_runA A (x :: sfx) e2 /\
   (forall q, est_sps A (est_runA A (x :: sfx) e1) q = est_sps A (est_runA A (x :: sfx) e2) q) /\
@@ -968,13 +968,75 @@ Theorem forgets_observationally : forall (A : arith) h1 h2 t1 t2 x sfx,
      b_started b1 = b_started b2 ->
      bar_query A b1 q = bar_query A b2 q).
 Proof.
-  intros A h1 h2 t1 t2 x sfx e1 e2 H1 H2.
+  intros A e1 e2 x sfx H1 H2.
   assert (E : est_runA A (x :: sfx) e1 = est_runA A (x :: sfx) e2).
   { cbn [est_runA]. apply est_runA_suffix. now apply est_evA_restart. }
   split; [exact E|]. split; [intros q; rewrite E; reflexivity|].
   intros b1 b2 q B1 B2 Hp Hl Hd Hs.
   unfold bar_query, bar_per_sec, bar_eta, bar_duration, bar_elapsed, bar_eta.
   rewrite B1, B2, E, Hp, Hl, Hd, Hs. reflexivity.
+Qed.
+
+(** BAR level, public calls: two bars with ARBITRARY pasts (any two histories of public calls from
+    any two creations) that stand at the same clock reading and agree on what a user can see AND
+    on the state of the position limiter ([same_but_est]: position, length, status, start,
+    limiter) observe the same per_sec / eta / duration / elapsed at every query of the same
+    public continuation that begins with reset_eta / reset_elapsed / reset.  The limiter state is
+    part of what must agree: it decides which later set_position / inc / dec reach the estimator,
+    and reset_eta / reset_elapsed / a backwards seek do not touch it (reset() only moves its
+    [prev] to the reset instant and keeps the bucket) - see [bar_limiter_leak_refuted]. *)
+Theorem bar_forgets_given_same_limiter : forall (A : arith) len1 len2 t1 t2 ops1 ops2 o sfx,
+  let b1 := fst (run_state A ops1 t1 (bar_new A len1 t1)) in
+  let b2 := fst (run_state A ops2 t2 (bar_new A len2 t2)) in
+  let n1 := snd (run_state A ops1 t1 (bar_new A len1 t1)) in
+  let n2 := snd (run_state A ops2 t2 (bar_new A len2 t2)) in
+  n1 = n2 -> o = ResetEta \/ o = ResetElapsed \/ o = ResetAll -> same_but_est A b1 b2 ->
+  snd (bar_run A (o :: sfx) n1 b1) = snd (bar_run A (o :: sfx) n2 b2).
+Proof.
+  intros A len1 len2 t1 t2 ops1 ops2 o sfx b1 b2 n1 n2 En Ho Hs.
+  rewrite <- En. destruct (bar_reset_forgets A o n1 b1 b2 sfx Ho Hs) as [_ E]. rewrite E. reflexivity.
+Qed.
+
+(** WITHOUT the agreement on the limiter the past leaks (over R): bar A made ten set_position
+    calls within 1 us (its limiter bucket is empty), bar B one; both stand at position 5 at
+    t = 1 us, get reset_eta at 2 us and inc(1) at 3 us.  They agree on position, length, status and
+    start before and after - but A's inc is refused by the limiter and never reaches the
+    estimator (per_sec = 0), B's is recorded (per_sec > 0). *)
+Definition leak_common : list eop := [Adv 1000; ResetEta; Adv 1000; Inc 1].
+Definition leak_opsA : list eop := Adv 1000 :: repeat (SetPos 5) 10 ++ leak_common.
+Definition leak_opsB : list eop := Adv 1000 :: SetPos 5 :: leak_common.
+
+Theorem bar_limiter_leak_refuted :
+  exists len t0,
+    let bA := fst (run_state Rar leak_opsA t0 (bar_new Rar len t0)) in
+    let bB := fst (run_state Rar leak_opsB t0 (bar_new Rar len t0)) in
+    let nA := snd (run_state Rar leak_opsA t0 (bar_new Rar len t0)) in
+    let nB := snd (run_state Rar leak_opsB t0 (bar_new Rar len t0)) in
+    no_wrap leak_opsA t0 /\ no_wrap leak_opsB t0 /\ nA = nB /\
+    b_pos bA = b_pos bB /\ b_len bA = b_len bB /\ b_done bA = b_done bB /\
+    b_started bA = b_started bB /\ b_lim bA <> b_lim bB /\
+    bar_per_sec Rar bA nA = 0 /\ 0 < bar_per_sec Rar bB nB.
+Proof.
+  exists (Some 100%N), 0%N. cbv zeta.
+  assert (HnA : no_wrap leak_opsA 0) by (lazy; repeat split).
+  assert (HnB : no_wrap leak_opsB 0) by (lazy; repeat split).
+  split; [exact HnA|]. split; [exact HnB|].
+  split; [lazy; reflexivity|]. split; [lazy; reflexivity|]. split; [lazy; reflexivity|].
+  split; [lazy; reflexivity|]. split; [lazy; reflexivity|].
+  split; [lazy; intros H; discriminate H|].
+  set (nA := snd (run_state Rar leak_opsA 0 (bar_new Rar (Some 100%N) 0))).
+  set (nB := snd (run_state Rar leak_opsB 0 (bar_new Rar (Some 100%N) 0))).
+  split.
+  - destruct (bar_rate_zero_iff_no_progress (Some 100%N) 0%N leak_opsA nA HnA) as (_ & Hz & _).
+    + lazy; reflexivity.
+    + apply N.le_refl.
+    + lazy; reflexivity.
+    + apply Hz. lazy. intros H; discriminate H.
+  - destruct (bar_rate_zero_iff_no_progress (Some 100%N) 0%N leak_opsB nB HnB) as (Hp & _).
+    + lazy; reflexivity.
+    + apply N.le_refl.
+    + lazy; reflexivity.
+    + apply Hp. lazy. reflexivity.
 Qed.
 
 (** * More non-vacuity *)
